@@ -423,7 +423,7 @@ Section Bz.
       match nth_error (d_fields d) f with
       | None => 0
       | Some (FRaw r) => nsamp (get_rd d r) + rd_foff (get_rd d r)
-      | Some (FPhase i sh) => Z.max 0 (eof_field fuel' d i - sh)
+      | Some (FPhase i sh) => eof_field fuel' d i - sh    (* not clamped inside the recursion (flimits.c, 5bcf63e) *)
       | Some (FLincom i _ _) | Some (FBit i _ _) => eof_field fuel' d i
       | Some (FMult a b) => Z.min (eof_field fuel' d a) (eof_field fuel' d b)
       end
@@ -477,7 +477,7 @@ Section Bz.
           match w with
           | WSet => (s, Val 0)
           | WCur => get_iopos (FUEL d) d s f
-          | WEnd => (s, Val (eof_field (FUEL d) d f))
+          | WEnd => (s, Val (Z.max 0 (eof_field (FUEL d) d f)))     (* iopos.c:403-406 *)
           end in
         match obase with
         | Err e => (s, RErr e)
